@@ -47,7 +47,7 @@ for call in calls:
         results.append(['undefined', name])
         continue
     try:
-        _v = ns[name](*[eval(a) for a in args])
+        _v = ns[name](*[ns[a[1:-2]]() if a.startswith('@') else eval(a) for a in args])
         results.append(['ok', repr(_v), [repr(_v), str(_v), format(_v)]])
     except BaseException as e:
         where = [f.lineno for f in traceback.extract_tb(e.__traceback__) if f.filename == 'answer.py']
